@@ -238,10 +238,10 @@ class KernExporter(object):
 
     def duration_to_kern(self, element: spt.GenericNote) -> str:
         if isinstance(element, spt.GraceNote):
-            if element.grace_type == "acciaccatura":
-                return "p"
-            else:
-                return "q"
+            # "q" marks a note without duration of its own, which is what every
+            # GraceNote is in the timeline ("p" is not a grace note marker in kern:
+            # it is read as a note with a duration)
+            return "q"
         else:
             if "type" not in element.symbolic_duration.keys():
                 warnings.warn(f"Element {element} has no symbolic duration type")
